@@ -9,35 +9,53 @@ const ASCII_DIGITS: [char; 10] = ['0', '1', '2', '3', '4', '5', '6', '7', '8', '
 
 /// Words that cannot name a function in an ES module (reserved words, `arguments`, `eval`) although
 /// they are legal Rust function names
-const JS_RESERVED_WORDS: [&str; 30] = [
+const JS_RESERVED_WORDS: [&str; 48] = [
+    "break",
     "case",
     "catch",
     "class",
+    "const",
+    "continue",
     "debugger",
     "default",
     "delete",
     "do",
+    "else",
+    "enum",
     "export",
     "extends",
+    "false",
     "finally",
+    "for",
     "function",
+    "if",
     "import",
+    "in",
     "instanceof",
     "new",
     "null",
+    "return",
+    "super",
     "switch",
     "this",
     "throw",
+    "true",
+    "try",
     "typeof",
     "var",
     "void",
+    "while",
     "with",
     "implements",
     "interface",
+    "let",
     "package",
     "private",
     "protected",
     "public",
+    "static",
+    "yield",
+    "await",
     "arguments",
     "eval",
 ];
